@@ -296,6 +296,14 @@ class Obj:
         return f"Obj<{self.cls}>"
 
 
+class _Unset:
+    def __repr__(self):
+        return "<unset>"
+
+
+UNSET = _Unset()   # a mapping entry whose value has not been materialised yet (None is a legitimate stored value)
+
+
 class SymDict:
     """python dict / xarray Dataset / attrs: finite universe of literal keys ->
     (present: Bool|bool, value)."""
@@ -312,7 +320,7 @@ class SymDict:
         if self.closed:
             return False
         p = z3.Bool(fresh_name(f"{self.name}.has.{key}"))
-        self.entries[key] = [p, None]
+        self.entries[key] = [p, UNSET]
         return p
 
     def __repr__(self):
@@ -433,7 +441,7 @@ def clone(v, memo):
         return r
     if isinstance(v, StrSym):
         return v
-    if type(v).__name__ in ("Masked", "RavelView", "DType", "NanTok"):
+    if type(v).__name__ in ("Masked", "RavelView", "DType", "NanTok", "_Unset"):
         return v
     if isinstance(v, set):
         return set(v)
